@@ -41,8 +41,11 @@ STR_KEYS = {'info_target': ['globalname', 'responsecontext'], 'logic_relay': ['g
 
 
 def gen_placement(rng) -> Tuple[Tuple[float, float, float], Tuple[float, float, float]]:
-    kind = rng.randrange(4)
-    if kind == 0:
+    kind = rng.randrange(5)
+    if kind == 4:
+        # rotation about one axis only (by far the most common placement: yaw only)
+        ang = rng.choice(((0.0, rng.uniform(0, 360), 0.0), (0.0, float(rng.randrange(0, 360, 15)), 0.0), (float(rng.randrange(-80, 81)), 0.0, 0.0), (0.0, 0.0, rng.uniform(0, 360))))
+    elif kind == 0:
         ang = (0.0, 0.0, 0.0)
     elif kind == 1:
         ang = (90.0 * rng.randrange(4), 90.0 * rng.randrange(4), 90.0 * rng.randrange(4))
